@@ -121,6 +121,7 @@ func runVario(sc M) {
 	fsw.SetFS(r)
 	efifs.SetFS(r)
 	emit(M{"sc": id, "op": "reset"})
+	var lastPre M
 	for si, st0 := range list(sc, "steps") {
 		step := st0.(M)
 		v := step["var"].(M)
@@ -130,10 +131,16 @@ func runVario(sc M) {
 		guid := guidOf(varGUIDWire, gid)
 		ev := efivar.Efivar{Name: name, GUID: &guid, Attributes: attributes.Attributes(want)}
 		path := dir + "/" + name + "-" + guidText(gw)
-		// the pre-state of the variable is set up directly on the inner file system
-		r.inner.Remove(path)
+		// the pre-state of the variable is set up directly on the inner file system; a step marked "again" repeats the previous
+		// step's operation on the variable exactly as that step left it (nothing touches the file in between)
+		again := step["again"] == true && lastPre != nil
+		if !again {
+			r.inner.Remove(path)
+		}
 		pre := M{"present": false, "attrs": []string{}, "val": "absent", "len": 0}
-		if st, ok := step["stored"].(M); ok {
+		if again {
+			pre = lastPre
+		} else if st, ok := step["stored"].(M); ok {
 			var content []byte
 			if str(st, "kind") == "short" {
 				n := num(st, "rawlen")
@@ -148,7 +155,12 @@ func runVario(sc M) {
 			f.Write(content)
 			f.Close()
 		}
+		lastPre = pre
 		api, op := str(step, "api"), str(step, "op")
+		nameOnly := api == "legacyname" // the package-level functions that take only a name and derive the vendor GUID from it
+		if nameOnly {
+			api = "legacy"
+		}
 		val := str(step, "val")
 		emit(M{"sc": id, "op": "api_begin", "api": api, "kind": op, "path": path, "vattrs": attrNames(want), "val": val, "vlen": len(storeValue(val)), "pre": pre, "i": si})
 		callStart(id, api+":"+op, M{"i": si})
@@ -186,9 +198,19 @@ func runVario(sc M) {
 		case "legacy":
 			o, err = guard(func() error {
 				if op == "write" {
+					if nameOnly {
+						return attributes.WriteEfivars(name, attributes.Attributes(want), storeValue(val))
+					}
 					return attributes.WriteEfivarsWithGuid(name, attributes.Attributes(want), storeValue(val), guid)
 				}
-				a, b, e := attributes.ReadEfivarsWithGuid(name, guid)
+				var a attributes.Attributes
+				var b *bytes.Buffer
+				var e error
+				if nameOnly {
+					a, b, e = attributes.ReadEfivars(name)
+				} else {
+					a, b, e = attributes.ReadEfivarsWithGuid(name, guid)
+				}
 				if e == nil {
 					end["got"] = identify(b.Bytes())
 					end["gattrs"] = attrNames(uint32(a))
